@@ -329,8 +329,6 @@ def run(ctx):
         flagged.setdefault(v[2], set()).add(v[1])
     # a violation the model predicts (deviation constants) must be reproduced by the recorded run
     unrep = [(sid, m["pred"]) for sid, m in meta.items() if not set(m["pred"]) <= flagged.get(sid, set())]
-    if unrep:
-        raise vlib.Inconclusive("MODEL-UNREPRODUCED: predicted violations not flagged on the real code: %s" % unrep[:5])
     outcomes = {}
     for p in proj:
         if p["ev"] == "ApiReply":
@@ -354,3 +352,5 @@ def run(ctx):
         ctx.add_violation(signature(inv, scn, detail, case),
                           replay_obj={"scenario": {k: v2 for k, v2 in by_id.get(scn, {}).items()}, "detail": detail,
                                       "trace": [p for p in proj if p["scn"] == scn]})
+    if unrep and not ctx.violations:
+        raise vlib.Inconclusive("MODEL-UNREPRODUCED: predicted violations not flagged on the real code: %s" % unrep[:5])
